@@ -184,7 +184,7 @@ def main():
     for fl in ('--jobs', '--repo'):
         if fl in a:
             skipn |= {a.index(fl), a.index(fl) + 1}
-    pref = [x for i, x in enumerate(a[1:], 1) if i not in skipn]
+    pref = [x for i, x in enumerate(a[1:], 1) if i not in skipn and x != '--record']
     ids = sorted(d for d in os.listdir(os.path.join(HERE, kind)) if os.path.exists(os.path.join(HERE, kind, d, 'patch.diff')))
     if pref:
         ids = [i for i in ids if any(i.startswith(p) for p in pref)]
@@ -236,6 +236,14 @@ def main():
                 tag = 'MISSED'
             if tag != 'own':
                 print('%-7s %s' % (ident, tag))
+            if '--record' in a:
+                # the detection record the thorough tier reads (which check is expected to report this change)
+                import subprocess
+                head = subprocess.run(['git', '-C', HERE, 'rev-parse', '--short', 'HEAD'], stdout=subprocess.PIPE).stdout.decode().strip()
+                m['detection'] = {'own_property_fires': prop in viol, 'fired': sorted(viol), 'analysis_error': sorted(errs),
+                                  'details': dict((p, [w]) for p, w in sorted(viol.items())), 'checked_at_commit': head,
+                                  'ran': 'patch.diff applied in memory to /repo HEAD; all 20 analyses (tools/memcheck.py seeded --record)'}
+                json.dump(m, open(os.path.join(HERE, kind, ident, 'meta.json'), 'w'), indent=1, sort_keys=True)
         print('seeded: %d changes, %d reported by their own check, %d by another check, %d exit 2, %d MISSED' % (len(res), own, cross, e2, miss))
     return 1 if bad else 0
 
